@@ -42,4 +42,54 @@ theorem C05_idempotent_parsed (cfg : Config) (txt : String) (ov ov2 : List (Stri
     (hp : Pipeline.parseProgram cfg txt = .ok c) (h : fillInLet ov c = .ok c') : fillInLet ov2 c' = .ok c' :=
   C05_idempotent ov ov2 c c' (parsed_legal cfg txt c hp).wf2 h
 
+/-! ### `C05_revalidate`: what the builder checked (C14's `RefsValid`) is the hypothesis of `C05_revalidate` -/
+
+mutual
+  theorem allVals_of_stmtOK : ∀ s : Stmt, StmtOK s → AllVals ValOK s
+    | .gate n gd args, h => by
+      simp only [StmtOK] at h
+      simp only [AllVals]
+      exact h.2.2
+    | .block par sub it body, h => by
+      simp only [StmtOK] at h
+      simp only [AllVals]
+      exact ⟨fun _ => h.1, allValsList_of_stmtsOK body h.2⟩
+    | .loop c b, h => by
+      simp only [StmtOK] at h
+      simp only [AllVals]
+      exact ⟨h.1, allVals_of_stmtOK b h.2⟩
+  theorem allValsList_of_stmtsOK : ∀ l : List Stmt, StmtsOK l → AllValsList ValOK l
+    | [], _ => by simp only [AllValsList]
+    | s :: ss, h => by
+      simp only [StmtsOK] at h
+      simp only [AllValsList]
+      exact ⟨allVals_of_stmtOK s h.1, allValsList_of_stmtsOK ss h.2⟩
+end
+
+/-- every parsed circuit satisfies C14's `RefsValid` (`C14_sound_all`, through `parseProgram`) -/
+theorem parsed_refsValid (cfg : Config) (txt : String) (c : Circuit) (hp : Pipeline.parseProgram cfg txt = .ok c) :
+    RefsValid c := by
+  unfold Pipeline.parseProgram Pipeline.parseSx at hp
+  cases ht : Parser.parseText txt with
+  | error pe => rw [ht] at hp; cases hp
+  | ok sx =>
+    rw [ht] at hp
+    have hpb : parseBuild cfg sx = .ok c := hp
+    exact (C14_sound_all cfg sx c hpb).1
+
+/-- the hypotheses of `C05_revalidate` hold of every parsed circuit -/
+theorem parsed_valOK (cfg : Config) (txt : String) (c : Circuit) (hp : Pipeline.parseProgram cfg txt = .ok c) :
+    AllVals ValOK c.body ∧ (∀ m ∈ c.macros, AllVals ValOK m.body) ∧ ∀ v ∈ c.registers, ValOK v := by
+  have hr := parsed_refsValid cfg txt c hp
+  exact ⟨allVals_of_stmtOK _ hr.body, fun m hm => allVals_of_stmtOK _ (hr.macros m hm), hr.registers⟩
+
+/-- **C05_revalidate for parsed circuits**: after `fill_in_let` (any overrides) of a parsed circuit every value — gate
+arguments, counts, registers — again satisfies what the constructors check (`ValOK`: sources are registers or parameters,
+literal indices inside literal sizes, literal slices inside their source, literal sizes ≥ 1). -/
+theorem C05_revalidate_parsed (cfg : Config) (txt : String) (ov : List (String × Num)) (c c' : Circuit)
+    (hp : Pipeline.parseProgram cfg txt = .ok c) (h : fillInLet ov c = .ok c') :
+    AllVals ValOK c'.body ∧ (∀ m ∈ c'.macros, AllVals ValOK m.body) ∧ ∀ v ∈ c'.registers, ValOK v := by
+  obtain ⟨hb, hm, hr⟩ := parsed_valOK cfg txt c hp
+  exact C05_revalidate ov c c' (parsed_legal cfg txt c hp).wf2 h hb hm hr
+
 end Jaqal.FillIn
